@@ -119,6 +119,7 @@ def parseTx (t : List String) : Option Tx :=
   -- Ethereum transactions are outside the model.  One that the EVM refuses charges nothing (no gas used): it is given the
   -- empty account, whose fee step finds nothing to take; a successful one ends the comparison of the history (mask)
   | "eth" :: _ :: _ => some (.bvm "" "?eth" "?" [])
+  | "ethx" :: _ :: _ => some (.bvm "" "?eth" "?" [])     -- an Ethereum transaction with a damaged signature: outside the model
   | "raw" :: signer :: _ => some (.bvm signer "?" "?" [])
   | "rawtd" :: signer :: _ => some (.bvm signer "?" "?" [])
   | _ => none
